@@ -398,6 +398,11 @@ fn consume(src: &Vec<char>, start: usize, line: u32, src_file_path: String) -> R
         },
         _ => {
             // if nothing matches must be an identifier
+            if !is_valid_identifier_char(src[start]) {
+                // no token can start with this character, consuming nothing here
+                // would make tokenize loop forever
+                return Err(SyntaxError(line, src_file_path, format!("Unexpected character '{}'", src[start])));
+            }
             let (t, consumed) = consume_identifier(src, start, line, src_file_path);
 
             consumed_char = consumed;
